@@ -4,7 +4,7 @@ from __future__ import annotations
 
 import ast
 
-from engine.core import AnalysisError, Repo, kwarg_of, norm, walk_no_nested
+from engine.core import sha, AnalysisError, Repo, kwarg_of, norm, walk_no_nested
 from engine.mutate import Mutant
 from engine.report import Result
 from rules import c02
@@ -27,6 +27,64 @@ ASSUMPTIONS = ["sympy expressions compare and hash structurally"]
 
 UO = "unyt/unit_object.py"
 ARR = "unyt/array.py"
+
+
+def power_offset_rule(repo, res):
+    """C05-R8: Unit.__pow__ treats an offset the way its siblings __mul__ / __truediv__ do.  On every returning path the
+    constructed unit either (a) belongs to a receiver whose offset is known to be zero on that path, or (b) is built
+    under exponent 1 and carries the receiver's offset; any other power of an offset unit must not return (u**1 must
+    equal u, and a unit that prints as an offset scale while converting as an absolute one is not the unit its text
+    denotes)."""
+    from engine.flow import enum_paths, fact_get, path_facts
+
+    r8 = res.rule("C05-R8", "Unit.__pow__: u**1 keeps the offset of u, any other power of an offset unit is refused (sibling agreement with __mul__ / __truediv__)", floor=2)
+    uo = repo.mod(UO)
+    fn = uo.func("Unit.__pow__")
+    new = uo.func("Unit.__new__")
+    res.fn(fn)
+    pname = fn.params[1]
+    n = 0
+    for path in enum_paths(fn.body):
+        if path[-1][0] != "return":
+            continue
+        fm = {t: tr for t, tr, _ in path_facts(path)}
+        env = {}
+        for ev in path:
+            if ev[0] in ("stmt",) and isinstance(ev[1], ast.Assign) and len(ev[1].targets) == 1 and isinstance(ev[1].targets[0], ast.Name):
+                env[ev[1].targets[0].id] = ev[1].value
+        ret = path[-1][1].value
+        calls = [c for c in ast.walk(ret) if isinstance(c, ast.Call) and norm(c.func) in ("Unit", "cls", "type(self)")] if ret is not None else []
+        if not calls:
+            if ret is not None and norm(ret) == "self":
+                is_one = fact_get(fm, f"{pname} == 1") is True or fact_get(fm, f"{pname} != 1") is False
+                n += 1
+                res.check(is_one, f"__pow__:returns-self:{sha(str(sorted(fm.items())))[:6]}", fn.where(path[-1][1]), "Unit.__pow__ returns the receiver itself only for exponent 1", rid=r8)
+                continue
+            raise AnalysisError(f"{fn.where()}: a returning path of Unit.__pow__ does not construct a Unit")
+        b = bind_call(calls[0], new, skip_self=True)
+        off = b.get("base_offset")
+        while isinstance(off, ast.Name) and off.id in env:
+            off = env[off.id]
+        off_txt = norm(off) if off is not None else None
+        has_offset = fact_get(fm, "self.base_offset")
+        if has_offset is None:
+            t = fact_get(fm, "self.base_offset != 0.0")
+            has_offset = t if t is not None else fact_get(fm, "self.base_offset != 0")
+        if has_offset is None:
+            t = fact_get(fm, "self.base_offset == 0.0")
+            has_offset = (not t) if t is not None else None
+        is_one = fact_get(fm, f"{pname} == 1") is True or fact_get(fm, f"{pname} != 1") is False
+        key = f"__pow__:{'offset' if has_offset else 'no-offset' if has_offset is False else 'any'}:{'p=1' if is_one else 'any-p'}"
+        n += 1
+        if has_offset is False:
+            # zero offset: passing it on or leaving the default are the same unit
+            res.check(off_txt in (None, "0.0", "0", "self.base_offset"), key, fn.where(calls[0]), "a unit without offset raised to a power has no offset", "0.0", off_txt, rid=r8)
+        elif is_one:
+            res.check(off_txt == "self.base_offset", key, fn.where(calls[0]), "u**1 is built without the offset of u: Unit('degC')**1 prints as degC but converts as an absolute scale (5 degC -> 5 K)", "base_offset=self.base_offset", off_txt, rid=r8)
+        else:
+            res.bad(key, fn.where(calls[0]), "Unit.__pow__ returns a power of a unit whose offset may be non-zero: the offset is dropped silently (Unit('degC')**1 != Unit('degC'); Unit('degC')**2 is a unit although degC*degC is refused)", "InvalidUnitOperation for p != 1, base_offset=self.base_offset for p == 1", f"base_offset={off_txt} on a path where neither `self.base_offset` is false nor `{pname} == 1`", rid=r8)
+    if n < 2:
+        raise AnalysisError(f"{fn.where()}: fewer than two returning paths distinguished by the receiver's offset")
 
 
 def check(repo: Repo) -> Result:
@@ -100,7 +158,7 @@ def check(repo: Repo) -> Result:
     # sibling agreement over every in-package construction of a Unit from explicit values: scale, offset, dimension and
     # registry travel together.  A site that passes the scale but leaves one of the others out gets the constructor's
     # default for it (offset 0.0, default registry) - the unit then no longer equals the one it was derived from.
-    CTOR_EXCEPT = {"Unit.__pow__": {"base_offset": "powers of offset units are refused before the constructor is reached (C08-R2), every other unit has offset 0"}}
+    CTOR_EXCEPT = {}
     n_sites = 0
     for mod_ in repo.mods(only_anchor=False):
         for q_, fns_ in mod_.funcs.items():
@@ -116,6 +174,8 @@ def check(repo: Repo) -> Result:
                     res.check(not missing, f"ctor-complete:{mod_.rel.split('/')[-1]}:{q_}", f_.where(c_), f"{q_} builds a Unit from an explicit scale but leaves out {missing}: the constructor's default (offset 0.0 / dimensions looked up / default registry) replaces the value of the unit it was derived from - all sibling constructions pass scale, offset, dimensions and registry together", "base_value, base_offset, dimensions and registry", sorted(k for k in b_ if k in ("base_value", "base_offset", "dimensions", "registry")), rid=r1)
     if n_sites < 6:
         raise AnalysisError(f"only {n_sites} Unit constructions with an explicit scale found")
+
+    power_offset_rule(repo, res)
 
     # R5: the power laws are computed by sympy on the dimension expressions: (x**a)**b collapses to x**(a*b) for
     # fractional b only when x is known to be positive.  Every base dimension must therefore be a positive Symbol
@@ -286,6 +346,9 @@ MUTANTS = [
     Mutant("mul-null-fastpath-left-copy", UO, "Unit.__mul__", "        base_offset = 0.0\n        if self.base_offset or u.base_offset:\n            if u.dimensions", "        if u.expr is sympy_one and u.base_value == 1.0:\n            return self.copy()\n        base_offset = 0.0\n        if self.base_offset or u.base_offset:\n            if u.dimensions", (), benign=True),
     Mutant("div-scale-multiplied", UO, "Unit.__truediv__", "base_value=(self.base_value / u.base_value)", "base_value=(self.base_value * u.base_value)", ("C05-R1",)),
     Mutant("dimension-not-positive", "unyt/dimensions.py", None, 'luminous_intensity = Symbol("(luminous_intensity)", positive=True)', 'luminous_intensity = Symbol("(luminous_intensity)")', ("C05-R5",)),
+    Mutant("pow-drops-offset", UO, "Unit.__pow__", "            base_value=(self.base_value**p),\n            base_offset=base_offset,\n", "            base_value=(self.base_value**p),\n", ("C05-R8", "C05-R1")),
+    Mutant("pow-refuses-nothing", UO, "Unit.__pow__", "            if p != 1:\n                raise InvalidUnitOperation(", "            if p == 0:\n                raise InvalidUnitOperation(", ("C05-R8",)),
+    Mutant("twin-pow-offset-test-spelled-out", UO, "Unit.__pow__", "        if self.base_offset:\n            if p != 1:", "        if self.base_offset != 0.0:\n            if p != 1:", (), benign=True),
     Mutant("as-coeff-unit-drops-offset", UO, "Unit.as_coeff_unit", "            self.base_offset,\n", "            0.0,\n", ("C05-R1",)),
     Mutant("sqrt-rule-keeps-unit", "unyt/array.py", "_sqrt_unit", "return 1, unit**0.5", "return 1, unit", ("C05-R7",)),
 ]
